@@ -1858,6 +1858,7 @@ func (h *fsmHandler) sendMessageloop(ctx context.Context, conn net.Conn, stateRe
 		case o := <-h.outgoing.Out():
 			switch m := o.(type) {
 			case *fsmOutgoingMsg:
+				verifYield("send.beforePack", fsm)
 				const maxCoalesceMsgs = 2048 // safety cap
 				paths := m.Paths
 				coalescedMsgs := 1
@@ -2013,6 +2014,7 @@ func (h *fsmHandler) recvMessageloop(ctx context.Context, conn net.Conn, holdtim
 				}
 
 				if doCallback {
+					verifYield("recv.beforeCallback", h.fsm)
 					h.callback(fmsg)
 				}
 			}
@@ -2238,6 +2240,7 @@ func (h *fsmHandler) loop(ctx context.Context, wg *sync.WaitGroup) {
 		}
 
 		h.callback(msg)
+		verifYield("fsm.beforeStateStore", fsm)
 		fsm.state.Store(nextState)
 		oldState = nextState
 	}
